@@ -1063,10 +1063,11 @@ ANIcreate(int32    file_id,  /* IN: file ID */
                                     AN_FILE_LABEL for file labels,
                                     AN_FILE_DESC for file descriptions.*/)
 {
-    int32  ann_id = FAIL;
-    uint16 ann_tag;
-    uint16 ann_ref;
-    int    ret_value = SUCCEED;
+    filerec_t *file_rec = NULL; /* file record pointer */
+    int32      ann_id   = FAIL;
+    uint16     ann_tag;
+    uint16     ann_ref;
+    int        ret_value = SUCCEED;
 
     /* Clear error stack */
     HEclear();
@@ -1074,6 +1075,18 @@ ANIcreate(int32    file_id,  /* IN: file ID */
     /* Valid file id */
     if (HAatom_group(file_id) != FIDGROUP)
         HGOTO_ERROR(DFE_ARGS, FAIL);
+
+    file_rec = HAatom_object(file_id);
+    if (BADFREC(file_rec))
+        HGOTO_ERROR(DFE_ARGS, FAIL);
+
+    /* The annotations of this type that are already in the file must be in
+       the tree before the new one is added, otherwise ANIaddentry() starts
+       an empty tree and the existing annotations are never listed */
+    if (type >= AN_DATA_LABEL && type <= AN_FILE_DESC && file_rec->an_num[type] == -1) {
+        if (ANIcreate_ann_tree(file_id, type) == FAIL)
+            HGOTO_ERROR(DFE_BADCALL, FAIL);
+    }
 
     /* deal with type */
     switch ((ann_type)type) {
